@@ -66,6 +66,9 @@ class MidiFile:
             # Keep track of current point in time
             current_point_in_time = 0
 
+            # Keep track of the notes that are currently open
+            open_notes = dict()
+
             # Get current sequence
             current_sequence = None
             if any(i in indices for indices in track_indices):
@@ -85,11 +88,22 @@ class MidiFile:
 
                 # Note On
                 if msg.message_type == MessageType.NOTE_ON and any(i in indices for indices in track_indices):
-                    current_sequence.add_absolute_message(
-                        Message(message_type=MessageType.NOTE_ON, channel=msg.channel, note=msg.note,
-                                velocity=msg.velocity, time=rounded_point_in_time))
+                    note_on = Message(message_type=MessageType.NOTE_ON, channel=msg.channel, note=msg.note,
+                                      velocity=msg.velocity, time=rounded_point_in_time)
+                    current_sequence.add_absolute_message(note_on)
+                    open_notes.setdefault((msg.channel, msg.note), []).append(note_on)
                 # Note Off
                 elif msg.message_type == MessageType.NOTE_OFF and any(i in indices for indices in track_indices):
+                    open_messages = open_notes.get((msg.channel, msg.note), [])
+
+                    # A note that ends at the point in time it started at (shorter than one tick) is dropped, its
+                    # note off would be sorted in front of its note on and the note would swallow the following one
+                    if len(open_messages) == 1 and open_messages[0].time == rounded_point_in_time:
+                        current_sequence.abs._messages.remove(open_messages.pop())
+                        continue
+                    if len(open_messages) > 0:
+                        open_messages.pop()
+
                     current_sequence.add_absolute_message(
                         Message(message_type=MessageType.NOTE_OFF, channel=msg.channel, note=msg.note,
                                 time=rounded_point_in_time))
